@@ -391,13 +391,17 @@ def op_target(op):
 # ------------------------------------------------------------------ verification of the file against the model
 
 def _close(imp):
-    """The importer has no close(); release its handle so that the exporter can reopen the file."""
-    for attr in ("_file", "file"):
-        try:
-            getattr(imp, attr).close()
-            return
-        except Exception:   # noqa
-            pass
+    """The importer has no close(); release whatever HDF5 handle it holds so that the
+    exporter can reopen the file (found by type, not by attribute name)."""
+    try:
+        for v in list(vars(imp).values()):
+            if isinstance(v, h5py.File):
+                try:
+                    v.close()
+                except Exception:   # noqa
+                    pass
+    except Exception:   # noqa
+        pass
     import gc
     del imp
     gc.collect()
